@@ -605,6 +605,12 @@ func (p SpendPolicy) encodePolicy(e *Encoder) {
 	case PolicyTypeUnlockConditions:
 		e.WriteUint8(opUnlockConditions)
 		UnlockConditions(p).EncodeTo(e)
+	case nil:
+		// NOTE: the zero SpendPolicy is what a JSON transaction that omits a
+		// policy decodes to. It is written as the opcode every decoder
+		// refuses, so that weighing or hashing such a transaction does not
+		// panic before validation rejects it.
+		e.WriteUint8(opInvalid)
 	default:
 		panic(fmt.Sprintf("unhandled policy type %T", p))
 	}
